@@ -67,6 +67,8 @@ def main():
                 model = workload.make_model(kind, nf)
                 data = workload.to_data(cohort("train"), kind)
                 kw.update(n_iter=plan["n_iter"])
+                if plan.get("annealing"):
+                    kw["annealing"] = dict(plan["annealing"])
                 if logs:
                     kw.update(logs)
                 model.fit(data, "mcmc_saem", **kw)
@@ -77,6 +79,8 @@ def main():
                 data = workload.to_data(cohort("perso", n=3), kind)
                 if call != "scipy_minimize":
                     kw.update(n_iter=plan["n_iter"])
+                    if plan.get("annealing"):
+                        kw["annealing"] = dict(plan["annealing"])
                 ip = model.personalize(data, call, **kw)
                 d = ip._individual_parameters
                 return tdig([np.atleast_1d(np.asarray(d[i][k], dtype=np.float64)) for i in ip._indices for k in sorted(d[i])])
